@@ -47,6 +47,10 @@ type Case struct {
 	Extra *ExtraPlan `json:"extra,omitempty"`
 	// VTag: a Tversion carrying an arbitrary tag (vtag_test.go); Rounds is empty then.
 	VTag *VTagPlan `json:"vtag,omitempty"`
+	// Pipe: pipelined clients re-using tags at once, volume (pipeline_test.go); Rounds is empty then.
+	Pipe *PipePlan `json:"pipe,omitempty"`
+	// MidV: a Tversion in mid-session over parked / deferred requests (midversion_test.go); Rounds is empty then.
+	MidV *MidVPlan `json:"midv,omitempty"`
 }
 
 const deadline = 30 * time.Second
@@ -547,6 +551,12 @@ func execute(test string, c *Case) error {
 			return nil
 		}
 		return err
+	}
+	if c.Pipe != nil {
+		return executePipe(test, c)
+	}
+	if c.MidV != nil {
+		return executeMidV(test, c)
 	}
 	if c.Extra != nil {
 		if extraNontrivial(c.Extra) {
